@@ -2,7 +2,7 @@
    The theorems are about the tree construction and the cleaning of names and values; the byte layers (chunk headers,
    string pool, chunk loop) are part of the model and are compared with the code on every run. *)
 From Coq Require Import ZArith List Bool.
-Require Import V.Lib.Val V.Lib.Result V.Axml.PoolModel V.Axml.AxmlModel V.Axml.AxmlProofs V.Axml.PoolProofs.
+Require Import V.Lib.Val V.Lib.Result V.Axml.PoolModel V.Axml.AxmlModel V.Axml.AxmlProofs V.Axml.PoolProofs V.Axml.AxmlChunks.
 Import ListNotations.
 Open Scope Z_scope.
 Import ListNotations.
@@ -51,6 +51,40 @@ Proof.
       destruct b; try split; vm_compute; reflexivity. }
   split; [apply F|]. split; [apply F|]. split; [vm_compute; reflexivity|]. split; vm_compute; reflexivity.
 Qed.
+
+(* the chunk decoders: a chunk written at any position of any buffer (the parser standing at it) is decoded to exactly its
+   event, and the parser moves to the end of the chunk: element start with any attribute records, element end, text;
+   namespace start / end and the resource map change the parser state as encoded and go on with the next chunk *)
+Theorem C26_element_start_is_decoded : forall pre rest fs st f, s_pos st = len pre -> len pre <> fs ->
+  forall line comment ns name attrs, fits32 line -> fits32 comment -> fits32 ns -> fits32 name -> Forall wf_attr attrs -> Z.of_nat (length attrs) < 65536 ->
+  let body := b32 ns ++ b32 name ++ b16 20 ++ b16 20 ++ b32 (Z.of_nat (length attrs)) ++ b32 0 ++ flat_map attr_bytes attrs in
+  16 + len body < 4294967296 ->
+  do_next (S f) (pre ++ node_chunk 258 line comment body ++ rest) fs st =
+  Ok (Some (EStart ns name attrs comment (s_ns st)), {| s_pos := len pre + 16 + len body; s_ns := s_ns st; s_res := s_res st |}).
+Proof. exact start_element_chunk. Qed.
+Print Assumptions C26_element_start_is_decoded.
+Theorem C26_element_end_and_text_are_decoded : forall pre rest fs st f, s_pos st = len pre -> len pre <> fs ->
+  (forall line comment ns name, fits32 line -> fits32 comment -> fits32 ns -> fits32 name ->
+     do_next (S f) (pre ++ node_chunk 259 line comment (b32 ns ++ b32 name) ++ rest) fs st =
+     Ok (Some (EEnd ns name), {| s_pos := len pre + 24; s_ns := s_ns st; s_res := s_res st |})) /\
+  (forall line comment name x y, fits32 line -> fits32 comment -> fits32 name -> fits32 x -> fits32 y ->
+     do_next (S f) (pre ++ node_chunk 260 line comment (b32 name ++ b32 x ++ b32 y) ++ rest) fs st =
+     Ok (Some (EText name), {| s_pos := len pre + 28; s_ns := s_ns st; s_res := s_res st |})).
+Proof. exact (fun pre rest fs st f Hp Hf => conj (end_element_chunk pre rest fs st f Hp Hf) (text_chunk pre rest fs st f Hp Hf)). Qed.
+Print Assumptions C26_element_end_and_text_are_decoded.
+Theorem C26_namespaces_and_resource_map_are_decoded : forall pre rest fs st f, s_pos st = len pre -> len pre <> fs ->
+  (forall line comment prefix uri, fits32 line -> fits32 comment -> fits32 prefix -> fits32 uri ->
+     do_next (S f) (pre ++ node_chunk 256 line comment (b32 prefix ++ b32 uri) ++ rest) fs st =
+     do_next f (pre ++ node_chunk 256 line comment (b32 prefix ++ b32 uri) ++ rest) fs {| s_pos := len pre + 24; s_ns := s_ns st ++ [(prefix, uri)]; s_res := s_res st |}) /\
+  (forall line comment prefix uri, fits32 line -> fits32 comment -> fits32 prefix -> fits32 uri ->
+     do_next (S f) (pre ++ node_chunk 257 line comment (b32 prefix ++ b32 uri) ++ rest) fs st =
+     do_next f (pre ++ node_chunk 257 line comment (b32 prefix ++ b32 uri) ++ rest) fs {| s_pos := len pre + 24; s_ns := remove_first (prefix, uri) (s_ns st); s_res := s_res st |}) /\
+  (forall ids, Forall (fun x => 0 <= x < 4294967296) ids -> 8 + 4 * Z.of_nat (length ids) < 4294967296 ->
+     let chunk := chunk_header 384 8 (8 + 4 * Z.of_nat (length ids)) ++ flat_map b32 ids in
+     do_next (S f) (pre ++ chunk ++ rest) fs st =
+     do_next f (pre ++ chunk ++ rest) fs {| s_pos := len pre + 8 + 4 * Z.of_nat (length ids); s_ns := s_ns st; s_res := s_res st ++ ids |}).
+Proof. exact (fun pre rest fs st f Hp Hf => conj (start_namespace_chunk pre rest fs st f Hp Hf) (conj (end_namespace_chunk pre rest fs st f Hp Hf) (resource_map_chunk pre rest fs st f Hp Hf))). Qed.
+Print Assumptions C26_namespaces_and_resource_map_are_decoded.
 
 (* <a>foo<b/>bar<c>in</c>tail</a> *)
 Example C26_nonvacuous :
